@@ -615,6 +615,25 @@ def run_more_name_rules(chk, spec):
 				exp = L.column_names() + R.column_names()
 				if second.value.column_names() != exp:
 					chk.fail("joined tables keep each source column's stored name in order", f"names/join/stale-after-rename/{how}/{ren}", f"{spec!r}: the second join names its columns {second.value.column_names()!r}; the tables now store {exp!r}")
+		elif what == "keyword-labels":
+			# a column whose label is a Python keyword: its sanitised name is the keyword itself (keywords are no Vector / Table attributes), whatever was printed before
+			kw = spec["variant"]
+			call(repr, Vector([1, 2], name="x"))
+			call(repr, Table({"a": [1], kw: [2]}))
+			t = Table({"k": ["a", "b", "a"], kw: [1, 2, 3]})
+			for op in ("aggregate", "window"):
+				o = call(lambda: getattr(t, op)(over="k", sum_over=kw, max_over=kw))
+				if o.ok and o.value.column_names()[1:] != [f"{kw.lower()}_sum", f"{kw.lower()}_max"]:
+					chk.fail("outputs are named <sanitised column>_<function>", f"names/{op}/output-names/keyword-label", f"{spec!r}: outputs named {o.value.column_names()[1:]!r}, the rule gives {[kw.lower() + '_sum', kw.lower() + '_max']!r}")
+					return
+		elif what == "copy-new-values":
+			src = {"vector": lambda: Vector([1, 2, 3], name="qty"), "column": lambda: Table({"qty": [1, 2, 3]})["qty"], "float": lambda: Vector([1.5, 2.5, 3.5], name="qty"), "str": lambda: Vector(["a", "b", "c"], name="qty")}[spec["variant"]]()
+			new = {"vector": [10, 20, 30], "column": [7, 8, 9], "float": [0.5, 0.25, 0.125], "str": ["x", "y", "z"]}[spec["variant"]]
+			for label, f in (("copy(new_values)", lambda: src.copy(list(new))), ("copy(new_values=...)", lambda: src.copy(new_values=list(new))), ("copy(shorter values)", lambda: src.copy(list(new[:2]))), ("copy(tuple)", lambda: src.copy(tuple(new)))):
+				o = call(f)
+				if o.ok and isinstance(o.value, Vector) and o.value.name != "qty":
+					chk.fail("copy keeps a vector's name", f"names/copy/name-lost/{label}", f"{spec!r}: {label} of a vector named 'qty' is named {o.value.name!r}")
+					return
 		elif what == "fillna-keeps-name":
 			v = {"int<-float": (Vector([1, None, 3], name="x"), 2.5), "int<-complex": (Vector([1, None], name="x"), 2j), "float<-complex": (Vector([1.5, None], name="x"), 1j), "date<-datetime": (Vector([date(2020, 1, 1), None], name="x"), datetime(2020, 1, 1, 5)),
 				"same-kind": (Vector([1, None], name="x"), 0), "column": (Table({"x": [1, None, 3]})["x"], 2.5)}[spec["variant"]]
@@ -684,7 +703,7 @@ def gen_agg_names_spec(rng):
 def run(chk):
 	for what, variants in (("fold-letters", ["strasse", "long-s", "fi", "capital-sharp-s", "dotless-i", "plain"]), ("selection-rename-local", ["t[:, name]", "t[:, j]", "t[name, :]", "t[0:3, name]", "t[:, (name,)]", "t[mask][name]"]),
 			("spelled-key-after-view-rename", ["untouched", "touched-first"]), ("nested-apply-names", ["aggregate-same-table", "window-same-table", "aggregate-other-table", "window-other-table"]), ("empty-typed-arithmetic", ["mask", "slice", "float-column", "typed-ctor", "sorted-empty"]),
-			("join-after-right-rename", [f"{h}/{r}" for h in ("left", "inner", "full") for r in ("rename_column", "rename_columns", "handle", "key-handle", "left-handle")]), ("fillna-keeps-name", ["int<-float", "int<-complex", "float<-complex", "date<-datetime", "same-kind", "column"])):
+			("join-after-right-rename", [f"{h}/{r}" for h in ("left", "inner", "full") for r in ("rename_column", "rename_columns", "handle", "key-handle", "left-handle")]), ("keyword-labels", ["in", "class", "import", "lambda", "None", "is", "Not", "async"]), ("copy-new-values", ["vector", "column", "float", "str"]), ("fillna-keeps-name", ["int<-float", "int<-complex", "float<-complex", "date<-datetime", "same-kind", "column"])):
 		for variant in variants:
 			chk.case("more_name_rules", {"what": what, "variant": variant}, "more-name-rules")
 	for op in ("aggregate", "window"):
